@@ -159,6 +159,12 @@ fn generate(rng: &mut Rng) -> ConnScenario {
             sc = held;
         }
     }
+    // an earlier connection of the same process ended abruptly with output still queued
+    if rng.chance(1, 10) {
+        let mut base = sc.clone();
+        base.wplan.clear();
+        sc.prelude = vec![abrupt_prelude(rng, &base)];
+    }
     sc
 }
 
@@ -331,7 +337,7 @@ impl Check for C03 {
                 }
             }
         }
-        let out = run_conn(sc);
+        let out = crate::conn::run_conn_after_prelude(sc);
         if held && sc.wplan.iter().any(|w| matches!(w, crate::pipe::WRule::PendEvent { name, .. } if !out.signals.contains_key(name))) {
             return RunReport::default(); // the hold waits for a call that was never made (an earlier stage failed)
         }
@@ -340,6 +346,9 @@ impl Check for C03 {
             || out.log.iter().any(|e| e.kind == "done" && e.detail["result"] == json!("error"));
         if held {
             *rep.faults.entry("keep_alive_write_held_back".into()).or_insert(0) += 1;
+        }
+        if !sc.prelude.is_empty() {
+            *rep.faults.entry("earlier_connection_ended_abruptly".into()).or_insert(0) += 1;
         }
         check(sc, &out, &mut rep);
         rep
